@@ -4,7 +4,10 @@ VARIABLE hist
 gv == <<vars, hist>>
 H(r) == hist' = Append(hist, r)
 GNext == \E c \in Clients :
-   \/ \E p \in Tracked, v \in Values : Startup(c, p, v) /\ H([op |-> "startup", c |-> c, p |-> p, v |-> v])
+   \/ \E p \in Tracked, v \in Values :
+         \* a client states its parameters before it starts working, at most one value per parameter
+         /\ ~\E i \in 1..Len(hist) : hist[i].c = c /\ (hist[i].op # "startup" \/ hist[i].p = p)
+         /\ Startup(c, p, v) /\ H([op |-> "startup", c |-> c, p |-> p, v |-> v])
    \/ \E s \in Conns : Checkout(c, s) /\ H([op |-> "begin", c |-> c, p |-> "", v |-> ""])
    \/ \E s \in Conns : Exec(c, s) /\ H([op |-> "stmt", c |-> c, p |-> "", v |-> ""])
    \/ \E s \in Conns : Release(c, s) /\ nops < MaxOps /\ H([op |-> "commit", c |-> c, p |-> "", v |-> ""])
